@@ -327,6 +327,14 @@ func NewTransactionFromBytes(b []byte) (*Transaction, error) {
 		return nil, errors.New("additional data after the transaction")
 	}
 	tx.size = len(b)
+	if sz := io.GetVarSize(tx); sz != len(b) {
+		// Non-canonical encoding (e.g. non-minimal length prefix): hash and
+		// size are those of the canonical form, as on any other decoding path.
+		tx.size = sz
+		if err := tx.createHash(); err != nil {
+			return nil, err
+		}
+	}
 	return tx, nil
 }
 
